@@ -59,6 +59,16 @@ fn main() {
             }
         }
     }
+    if args.len() == 1 && args[0] == "--prebuild" {
+        // ./check --setup: build the per-configuration probe binaries of C20 ahead of time
+        for cfg in rfverif::c20::CONFIGS {
+            if let Err(e) = rfverif::c20::build(cfg, "release") {
+                eprintln!("BUILD-FAILED: fpprobe[{cfg}]\n{e}");
+                std::process::exit(2);
+            }
+        }
+        std::process::exit(0);
+    }
     if args.len() != 2 {
         eprintln!("usage: rfverif <Cxx> <quick|thorough> | --replay <file>");
         std::process::exit(2);
